@@ -539,6 +539,8 @@ class Session:
         if self.s1_perms:
             ev["s1"]["perms"] = self.s1_perms
         ev["cache1"] = self.cache_sizes()
+        # heap-layout probe for the determinism self-test (never compared with a reference)
+        ev["addr"] = id(ev) & 0xFFFFFFF
         if self.check_immut:
             ev["immut"] = self.immut_check()
         self.clean_scratch()
